@@ -10,8 +10,9 @@ EXTENDS Integers, Sequences, FiniteSets, TLC
 
 CONSTANTS Dev
 
-Families == {"ss-legacy", "ss2022", "ss2022-eih", "vmess", "vmess-udp", "trojan", "trojan-udp"}
-Limit(f) == CASE f = "ss-legacy" -> 16383 [] f \in {"ss2022", "ss2022-eih"} -> 65535 [] f \in {"vmess", "vmess-udp"} -> 16384 [] OTHER -> 1048576
+\* "ss2022-eih2" / "ss2022-eih3": a client behind a relay chain, its password carries two / three identity keys (SIP023)
+Families == {"ss-legacy", "ss2022", "ss2022-eih", "ss2022-eih2", "ss2022-eih3", "vmess", "vmess-udp", "trojan", "trojan-udp"}
+Limit(f) == CASE f = "ss-legacy" -> 16383 [] f \in {"ss2022", "ss2022-eih", "ss2022-eih2", "ss2022-eih3"} -> 65535 [] f \in {"vmess", "vmess-udp"} -> 16384 [] OTHER -> 1048576
 \* write sizes: tiny, just below / at / above the limit, several limits
 SizeClasses(f) == IF f \in {"vmess-udp", "trojan-udp"} THEN {1, 1400, 8000}
                   ELSE {1, Limit(f) - 1, Limit(f), Limit(f) + 1, 3 * Limit(f) + 7} \cap 1..200000
@@ -22,7 +23,9 @@ ScriptsOf(f) == {[family |-> f, dir |-> d, producer |-> p, sizes |-> s, mask |->
                    s \in UNION {[1..n -> SizeClasses(f)] : n \in 1..2}, m \in Masks(f)}
 Scripts == UNION {ScriptsOf(f) : f \in Families}
 \* the real encoders only ever use the mask the client sets (29); other masks are reference-made requests
-Sensible(s) == (s.mask \notin {0, 29} => s.producer = "ref")
+Sensible(s) == /\ (s.mask \notin {0, 29} => s.producer = "ref")
+               \* the last hop of a relay chain is not this server: only what the real client sends is judged (by the reference)
+               /\ (s.family \in {"ss2022-eih2", "ss2022-eih3"} => (s.dir = "req" /\ s.producer = "real" /\ Len(s.sizes) = 1))
 
 MaxUnit(s) == LET big == CHOOSE x \in {s.sizes[i] : i \in 1..Len(s.sizes)} : \A y \in {s.sizes[i] : i \in 1..Len(s.sizes)} : x >= y
               IN IF "BigChunk" \in Dev THEN big ELSE IF big > Limit(s.family) THEN Limit(s.family) ELSE big
